@@ -199,7 +199,7 @@ static void run_mutant (const Seed *s, const Mut *m, int routes_mask, int pairs)
 		else
 		{	if (! described) { hc_describe (m, desc, sizeof (desc)) ; described = 1 ; }
 			if (vl_case ("C03 X seed=%s fam=%s %s route=%s script=full", s->name, hc_family (m), desc, route_names [route]))
-			{	if (len < 0) { if (2 * s->len + 4096 > work_cap) { work_cap = 4 * s->len + 8192 ; work = realloc (work, work_cap) ; } len = hc_materialise (s, m, work) ; }
+			{	if (len < 0) { if (2 * s->len + 8192 > work_cap) { work_cap = 4 * s->len + 16384 ; work = realloc (work, work_cap) ; } len = hc_materialise (s, m, work) ; }
 				vl_root_count (s->fam) ;
 				snprintf (SIGBASE, sizeof (SIGBASE), "%s|%s|%s", s->fam, hc_family (m), route_names [route]) ;
 				vl_end (1, execute (s, work, len, route, -1, -1)) ;
@@ -212,7 +212,7 @@ static void run_mutant (const Seed *s, const Mut *m, int routes_mask, int pairs)
 				{	if (! vl_peek ()) { vl_skip (1) ; continue ; }
 					if (! described) { hc_describe (m, desc, sizeof (desc)) ; described = 1 ; }
 					if (vl_case ("C03 X seed=%s fam=%s %s route=vio script=%s,%s", s->name, hc_family (m), desc, op_names [a], op_names [b]))
-					{	if (len < 0) { if (2 * s->len + 4096 > work_cap) { work_cap = 4 * s->len + 8192 ; work = realloc (work, work_cap) ; } len = hc_materialise (s, m, work) ; }
+					{	if (len < 0) { if (2 * s->len + 8192 > work_cap) { work_cap = 4 * s->len + 16384 ; work = realloc (work, work_cap) ; } len = hc_materialise (s, m, work) ; }
 						vl_root_count (s->fam) ;
 						snprintf (SIGBASE, sizeof (SIGBASE), "%s|%s|vio", s->fam, hc_family (m)) ;
 						vl_end (1, execute (s, work, len, R_VIO, a, b)) ;
